@@ -32,7 +32,7 @@ def run(tier, seed, t0):
     summ = json.loads(out.strip().splitlines()[-1])
     files = sorted(glob.glob(os.path.join(tdir, "c02-*.ndjson")))
     consumed, bad = vlib.validate_traces("PublishTrace", "PublishTrace.cfg", files, timeout=1500, xmx="4g")
-    v = vlib.Verdict(PROP, own_kinds=("pubflags",))
+    v = vlib.Verdict(PROP, own_kinds=("pubflags", "backlog-midframe"))
     v.absorb(bad)
     # consecutive publishes to the SAME exchange / routing key with changing flags go through the session
     # driver and the connection-level trace spec (every Basic.Publish on the wire carries exactly the call's
@@ -45,6 +45,10 @@ def run(tier, seed, t0):
     # a publish under way (publisher held up half-way) when the server makes the I/O thread write a frame of its
     # own on that channel (CancelOk for a server cancel): known finding, see known_findings.jsonl
     fscn += scenarios.generate("pub_cancel", 20 if tier == "quick" else 200, seed)
+    # the transport stalls in mid-frame for longer than the heartbeat interval (and other things the I/O thread
+    # does on its own account while a publish is half-written: CloseOk for a server close)
+    mf = scenarios.generate("midframe_close", 100 if tier == "quick" else 1500, seed)
+    fscn += [x for k, x in enumerate(mf) if k % 10 == 3 or tier != "quick"]
     ffiles, fsumm = vlib.run_sessions(PROP + "-flags", fscn, tier)
     fconsumed, fbad = vlib.validate_traces("ConnTrace", "ConnTrace.cfg", ffiles, timeout=1800, xmx="4g")
     v.absorb(fbad)
